@@ -8,6 +8,7 @@ import Dashu.Model.Mem.Arith2
 import Dashu.Model.Mem.Arith3
 import Dashu.Proofs.Mem.Arith4
 import Dashu.Proofs.Mem.Arith5
+import Dashu.Proofs.Mem.DivPanic
 import Dashu.Gen.Scratch
 /-
   C17 — The hand-managed integer storage is memory-safe and keeps its invariants  (PARTIAL).
@@ -956,6 +957,35 @@ theorem euclid_fix_sub_no_panic (W : Nat) (bVal : Bool) (b : List Nat) (rm : Nat
 
 -- non-vacuity: a 3-word divisor with the length of its value, remainder 2^64 (two words)
 example : [5, 6, 7].length = wordLen 64 (wval 64 [5, 6, 7]) ∧ 2 ^ 64 ≤ wval 64 [5, 6, 7] := by decide +kernel
+
+/-- **the division storage skeletons panic only on a zero divisor** (round 7; was "observed, not proved"): for `UBig / UBig`,
+    `UBig % UBig`, `UBig::div_rem` and `IBig`'s `div_euclid` / `rem_euclid` / `div_rem_euclid` skeletons, in every ownership
+    form, sign pair and for ANY operand words, `Dashu.Proofs.Mem.DivPanicSpec W b fr` holds: the only panic is the documented
+    `divideByZero`; there is none when the divisor's value is non-zero; and an inline zero divisor (≤ 2 words — the only zero a
+    canonical `Repr` can be) always panics.  (The UBig `div_euclid` family forwards to these; IBig `/ % div_rem` are sign glue
+    over them.)  The Euclidean fix-up subtraction adds no panic arm by `euclid_fix_sub_no_panic`. -/
+theorem div_skeletons_panic_only_on_zero_divisor (W : Nat) (f : Form) (na nb wantRem : Bool) (a b : List Nat) :
+    Dashu.Proofs.Mem.DivPanicSpec W b (fragDivRem W wantRem f a b) ∧
+    Dashu.Proofs.Mem.DivPanicSpec W b (fragDivRemBoth W f a b) ∧
+    Dashu.Proofs.Mem.DivPanicSpec W b (fragSignedDivEuclid W f na a nb b) ∧
+    Dashu.Proofs.Mem.DivPanicSpec W b (fragSignedRemEuclid W f na a b) ∧
+    Dashu.Proofs.Mem.DivPanicSpec W b (fragSignedDivRemEuclid W f na a nb b) :=
+  ⟨Dashu.Proofs.Mem.fragDivRem_panic W wantRem f a b, Dashu.Proofs.Mem.fragDivRemBoth_panic W f a b,
+   Dashu.Proofs.Mem.fragSignedDivEuclid_panic W f na a nb b, Dashu.Proofs.Mem.fragSignedRemEuclid_panic W f na a b,
+   Dashu.Proofs.Mem.fragSignedDivRemEuclid_panic W f na a nb b⟩
+
+/-- what `DivPanicSpec` says, spelled out -/
+theorem div_panic_spec_unfold (W : Nat) (b : List Nat) (fr : Frag) :
+    Dashu.Proofs.Mem.DivPanicSpec W b fr ↔
+      ((fr.panic = none ∨ fr.panic = some .divideByZero) ∧ (wval W b ≠ 0 → fr.panic = none) ∧
+       (isSmall b = true → wval W b = 0 → fr.panic = some .divideByZero)) := Iff.rfl
+
+-- non-vacuity: both outcomes occur — a 5-word by 3-word Euclidean division of a negative dividend runs to the end, the same
+-- with an empty (zero) divisor panics; the non-zero-divisor clause applied to a concrete input
+example : (fragSignedDivRemEuclid 64 .vv true [1, 2, 3, 4, 5] false [7, 8, 9]).panic = none ∧
+    (fragSignedDivRemEuclid 64 .rv true [1, 2, 3, 4, 5] true []).panic = some .divideByZero ∧
+    (fragDivRem 64 true .rr [1, 2, 3] [0]).panic = some .divideByZero := by decide +kernel
+example := (div_skeletons_panic_only_on_zero_divisor 64 .vv true false true [1, 2, 3, 4, 5] [7, 8, 9]).2.2.2.1.2.1 (by decide)
 
 /-- the flag-tracking Lehmer loop of the gcd skeleton has, as its value, C12's mirrored `lehmerGcdLoop` — for every fuel,
     operands and initial flag (the flag is the only thing C17 adds to C12's kernel) -/
